@@ -47,6 +47,18 @@ T = {
  "C14": ("EnvelopeEncryption with harness KMS providers; fault enumeration over every blob position, truncation, extension and provider fault",
          "For every explored blob (plaintexts 32..=64 bytes, wrapped-key lengths 16..=1024 with a provider that really hides the key): round trip returned the seed; every single-byte/bit modification at every position, every truncation, extensions 1..=64 and every provider fault yielded Err, never a plaintext or panic; the blob contained neither seed nor data key. Fault enumeration per blob, sampled over blobs.",
          "Trusted: ring AES-GCM; harness providers are faithful KMS stand-ins."),
+ "C15": ("real server process per configuration observed from outside: /proc thread names, probe replies, TCP health replies, stderr, liveness (runtime monitor)",
+         "Every explored start of the real server binary (example.cfg as shipped; a covering sample in quick / the full documented grid in thorough; file and ENV sources) became ready, showed all worker-N threads, answered probes from every worker (distinct per-worker delegated keys) with verifying replies, answered sequential and burst health-check connections with HTTP 200 while UDP service continued, printed no panic, and stayed alive for the 3 s observation window. Exploration over configurations; 'stays alive' is decided over the window only.",
+         "Trusted: per-worker identity = distinct DELE.PUBK among classic replies; readiness = first verifying reply within 10 s; port collisions with foreign processes are inconclusive."),
+ "C16": ("probe child process calling the real make_config+is_valid_config, confirmed by starting the real server (runtime monitor against the documented option table)",
+         "For every documented key x boundary value x source: in-range values were reported unchanged by the getters through both sources; out-of-range values, missing required keys, unknown keys and malformed seeds never led to a serving server. Bounded grid, exhaustive over it; thorough adds random in-range combinations.",
+         "Trusted: the option table transcribed from README.md / config/mod.rs docs; a start that dies is a refusal."),
+ "C18": ("real multi-worker server under concurrent closed-loop reference clients; offline exactly-once check of the client-side history; TSan build in thorough (runtime monitor + race detector)",
+         "In every explored round each request got exactly one reply verifying for that request under the single long-term key, no late second reply, no worker died, no panic; across rounds replies came from up to 16 distinct workers and thousands of distinct batch compositions. Schedules and SO_REUSEPORT placement are sampled and perturbed (client counts, CPU pinning, think times), not enumerated.",
+         "Trusted: 5 s reply bound (a missing reply with a moved kernel drop counter is inconclusive); reference verifier."),
+ "C19": ("real server + signals swept over delivery instants and load phases; exit status/time, stderr and pre-exit replies observed (fault enumeration over signal instants; TSan build in thorough)",
+         "For every explored (signal, workers, client_stats, phase, delay) the process exited with status 0 within 10 s (observed maxima in evidence), printed no panic, and every reply received before exit verified. Instants are swept 0-300 ms in random microsecond steps; 3-10 s exits are recorded as slow (inconclusive).",
+         "Trusted: 10 s bound as the reading of 'a few seconds'; signals delivered with kill(2) to the process."),
  "C17": ("PerClientStats/AggregatedStats/Reporter vs reference counter model; bounded-exhaustive op sequences, worker splits, and in-process Server recorder read via hook (runtime model monitor)",
          "Each event was reflected exactly once (own counter or overflow) and tracked addresses never exceeded the limit on every sequence in scope; aggregated == per-client totals without overflow; Reporter merge preserved all per-address sums (hook and decoded CSV.zst); server recorder totals equalled datagrams sent/received by the harness at every quiescent point. Exhaustive in small scope, sampled beyond.",
          "Trusted: hooks verif_with_limit / verif_stats / verif_merged are read-only; queue sized so force_push never evicts (eviction is by design lossy)."),
